@@ -15,6 +15,7 @@ import (
 	"encoding/json"
 	"fmt"
 	"strings"
+	"sync/atomic"
 	"testing"
 
 	"github.com/pion/webrtc/v4/internal/verif/vkit"
@@ -194,7 +195,7 @@ func c08RunSynthetic(t *testing.T, c *vkit.Check, cs c08Case) (counted bool) {
 		l := &c08Local{t: t, pc: pc}
 		mids := make([]string, len(cs.Kinds))
 		for i, k := range cs.Kinds {
-			mids[i] = fmt.Sprint(i)
+			mids[i] = fmt.Sprint(len(cs.Kinds) - 1 - i) // not the position
 			l.addTransceiver(vAnsKind(k), cs.Init[i])
 		}
 		for r, rd := range cs.Rounds {
@@ -399,45 +400,44 @@ type c08Plan struct {
 	MidOps  bool     `json:"mid_ops"`   // operations between SetRemoteDescription and CreateAnswer too
 	LastNop bool     `json:"last_nop"`  // the last round has no local operation (bounds the 3-round product)
 	Count   int      `json:"histories"` // filled in
+	Run     int      `json:"histories_without_inapplicable_operation"`
 }
 
-func c08Histories(p c08Plan) []c08Case {
+// c08Histories returns the number of histories of the plan and a decoder of the j-th one.
+func c08Histories(p c08Plan) (int, func(j int) c08Case) {
 	dirs := c08DirTuples(len(p.Kinds))
-	var rounds func(r int) [][]c08Round
-	rounds = func(r int) [][]c08Round {
-		if r == p.Rounds {
-			return [][]c08Round{nil}
-		}
+	inits := c08InitTuples(c08Inits, len(p.Kinds))
+	opts := make([][]c08Round, p.Rounds)
+	dims := []int{len(inits)}
+	for r := 0; r < p.Rounds; r++ {
 		ops := c08Ops(p.Kinds, r == 0, p.MidOps)
 		if p.LastNop && r == p.Rounds-1 && r > 0 {
 			ops = []c08Op{{}}
 		}
-		tails := rounds(r + 1)
-		var out [][]c08Round
 		for _, op := range ops {
 			for _, d := range dirs {
-				for _, tl := range tails {
-					out = append(out, append([]c08Round{{Op: op, Dirs: d}}, tl...))
-				}
+				opts[r] = append(opts[r], c08Round{Op: op, Dirs: d})
 			}
 		}
-
-		return out
+		dims = append(dims, len(opts[r]))
 	}
-	var out []c08Case
-	for _, init := range c08InitTuples(c08Inits, len(p.Kinds)) {
-		for _, rs := range rounds(0) {
-			out = append(out, c08Case{Kinds: p.Kinds, Init: init, Rounds: rs})
+
+	return vkit.ProductSize(dims...), func(j int) c08Case {
+		ix := vkit.ProductIndex(j, dims...)
+		cs := c08Case{Kinds: p.Kinds, Init: inits[ix[0]]}
+		for r := 0; r < p.Rounds; r++ {
+			cs.Rounds = append(cs.Rounds, opts[r][ix[r+1]])
 		}
-	}
 
-	return out
+		return cs
+	}
 }
 
 type c08PairPlan struct {
 	Kinds  []string `json:"kinds"`
 	Rounds int      `json:"rounds"`
 	Count  int      `json:"histories"`
+	Run    int      `json:"histories_without_inapplicable_operation"`
 }
 
 func c08PairHistories(p c08PairPlan) []c08PairCase {
@@ -516,7 +516,7 @@ func TestVerifC08(t *testing.T) {
 			{Kinds: []string{"audio"}, Rounds: 3, MidOps: true},
 			{Kinds: []string{"audio", "audio"}, Rounds: 2, MidOps: true},
 			{Kinds: []string{"audio", "video"}, Rounds: 2},
-			{Kinds: []string{"audio", "audio"}, Rounds: 3, LastNop: true},
+			{Kinds: []string{"audio", "audio"}, Rounds: 3},
 		}
 		pairPlans = []c08PairPlan{
 			{Kinds: []string{"audio"}, Rounds: 3},
@@ -524,29 +524,33 @@ func TestVerifC08(t *testing.T) {
 		}
 	}
 	for i := range plans {
-		hs := c08Histories(plans[i])
-		vkit.Parallel(len(hs), func(j int) {
-			if c08RunSynthetic(t, c, hs[j]) {
+		n, hist := c08Histories(plans[i])
+		var run int64
+		vkit.Parallel(n, func(j int) {
+			if c08RunSynthetic(t, c, hist(j)) {
 				c.Eval()
 				c.Validated()
-				c.Add(fmt.Sprintf("synthetic_plan_%d_histories_run", i), 1)
+				atomic.AddInt64(&run, 1)
 			}
 		})
-		plans[i].Count = len(hs)
+		plans[i].Count = n
+		plans[i].Run = int(run)
 		if i == 0 {
-			c.Sample(hs[len(hs)/2])
+			c.Sample(hist(n / 2))
 		}
 	}
 	for i := range pairPlans {
 		hs := c08PairHistories(pairPlans[i])
+		var run int64
 		vkit.Parallel(len(hs), func(j int) {
 			if c08RunPair(t, c, hs[j]) {
 				c.Eval()
 				c.Validated()
-				c.Add(fmt.Sprintf("pair_plan_%d_histories_run", i), 1)
+				atomic.AddInt64(&run, 1)
 			}
 		})
 		pairPlans[i].Count = len(hs)
+		pairPlans[i].Run = int(run)
 		if i == 0 {
 			c.Sample(hs[len(hs)/2])
 		}
